@@ -155,10 +155,11 @@ func (s *schemaPropsValidator) validateAnyOf(data interface{}, mainResult, keepR
 	var bestFailures *Result
 
 	for i, anyOfSchema := range s.anyOfValidators {
-		result := anyOfSchema.Validate(data)
 		if s.Options.recycleValidators {
+			// the validator redeems itself when it returns or panics: release the entry first
 			s.anyOfValidators[i] = nil
 		}
+		result := anyOfSchema.Validate(data)
 		// We keep inner IMPORTANT! errors no matter what MatchCount tells us
 		keepResultAnyOf.Merge(result.keepRelevantErrors()) // merges (and redeems) a new instance of Result
 
@@ -200,10 +201,11 @@ func (s *schemaPropsValidator) validateOneOf(data interface{}, mainResult, keepR
 	)
 
 	for i, oneOfSchema := range s.oneOfValidators {
-		result := oneOfSchema.Validate(data)
 		if s.Options.recycleValidators {
+			// the validator redeems itself when it returns or panics: release the entry first
 			s.oneOfValidators[i] = nil
 		}
+		result := oneOfSchema.Validate(data)
 
 		// We keep inner IMPORTANT! errors no matter what MatchCount tells us
 		keepResultOneOf.Merge(result.keepRelevantErrors()) // merges (and redeems) a new instance of Result
@@ -256,10 +258,11 @@ func (s *schemaPropsValidator) validateAllOf(data interface{}, mainResult, keepR
 	var validated int
 
 	for i, allOfSchema := range s.allOfValidators {
-		result := allOfSchema.Validate(data)
 		if s.Options.recycleValidators {
+			// the validator redeems itself when it returns or panics: release the entry first
 			s.allOfValidators[i] = nil
 		}
+		result := allOfSchema.Validate(data)
 		// We keep inner IMPORTANT! errors no matter what MatchCount tells us
 		keepResultAllOf.Merge(result.keepRelevantErrors())
 		if result.IsValid() {
@@ -278,10 +281,12 @@ func (s *schemaPropsValidator) validateAllOf(data interface{}, mainResult, keepR
 }
 
 func (s *schemaPropsValidator) validateNot(data interface{}, mainResult *Result) {
-	result := s.notValidator.Validate(data)
+	notValidator := s.notValidator
 	if s.Options.recycleValidators {
+		// the validator redeems itself when it returns or panics: release it first
 		s.notValidator = nil
 	}
+	result := notValidator.Validate(data)
 	// We keep inner IMPORTANT! errors no matter what MatchCount tells us
 	if result.IsValid() {
 		mainResult.AddErrors(mustNotValidatechemaMsg(s.Path))
